@@ -2,6 +2,7 @@
 on_websocket responder executes a generated script against the fake ASGI
 server, under the simulated loop."""
 import asyncio
+import copy
 
 import falcon
 import falcon.asgi
@@ -211,6 +212,11 @@ class WsHarness(object):
                     v = await ws.receive_data()
                 else:
                     v = await ws.receive_media()
+                    if isinstance(v, dict):
+                        kept = copy.deepcopy(v)
+                        v['touched-by-the-app'] = True      # the application owns what it received
+                        v.get('l', []).append('x')
+                        v = kept
             except ferrors.PayloadTypeError:
                 self.consumed += 1
                 raise
@@ -522,16 +528,19 @@ def gen_client(ch, max_msgs=6, allow_abandon=False, text_only=False):
         # servers differ in how they spell a message event: only the key that carries the payload,
         # or both keys with the other one None (the ASGI spec allows either)
         both = ch.draw(3, 'event_both_keys') == 2
+        # payloads are JSON documents; in 'containers' mode they are small objects that repeat, and
+        # the responder changes what receive_media() gave it in place (its own copy to play with)
+        containers = ch.draw(4, 'container_payloads') == 3
         for i in range(n):
             k = 0 if text_only else ch.draw(3, 'msg_kind')
             if k in (0, 1):
                 # text; payload is valid JSON so receive_media works too
-                p = '"m%d"' % i
+                p = ('{"n": %d, "l": [1]}' % (i % 2)) if containers else '"m%d"' % i
                 events.append({'type': 'websocket.receive', 'text': p, 'bytes': None} if both else
                               {'type': 'websocket.receive', 'text': p})
                 messages.append(('text', p))
             else:
-                p = ('"b%d"' % i).encode()
+                p = (('{"n": %d, "l": [2]}' % (i % 2)) if containers else '"b%d"' % i).encode()
                 events.append({'type': 'websocket.receive', 'bytes': p, 'text': None} if both else
                               {'type': 'websocket.receive', 'bytes': p})
                 messages.append(('bytes', p))
